@@ -302,6 +302,66 @@ func (r *rwRT) ruleBranchCtx() {
 		}
 	}
 	r.account(d.in)
+	r.ruleRmRedundantReturn(d, pos)
+}
+
+// ruleRmRedundantReturn: after a branch was replaced by `return seq.Break()/Continue()`
+// the pass may drop a trailing `return Normal()` of the enclosing body — but only
+// that statement and only when what precedes it is terminating (otherwise the
+// thunk loses its final return, or a needed Normal).
+func (r *rwRT) ruleRmRedundantReturn(d *branchDriver, pos string) {
+	c := r.c
+	st2, node := d.branchNode(d.base, "BREAK", false)
+	removed, kept, bad := 0, 0, ""
+	for _, o1 := range d.step(st2, d.pre, node) {
+		if o1.Panicked {
+			continue
+		}
+		for _, o2 := range d.step(o1.St, d.pst, node) {
+			if o2.Panicked {
+				continue
+			}
+			var store *Event
+			evs := o2.St.Events[len(st2.Events):]
+			for i := range evs {
+				if evs[i].Kind == "store" && strings.HasSuffix(evs[i].Target, ".List") {
+					store = &evs[i]
+				}
+			}
+			term, notTerm, isNormal := false, false, false
+			for _, l := range o2.St.Labels {
+				if strings.HasPrefix(l, "isTerminating(") && strings.HasSuffix(l, "=true") {
+					term = true
+				}
+				if strings.HasPrefix(l, "isTerminating(") && strings.HasSuffix(l, "=false") {
+					notTerm = true
+				}
+				if strings.Contains(l, "callNormal") && strings.HasPrefix(l, "==(") && strings.HasSuffix(l, "=true") {
+					isNormal = true
+				}
+			}
+			if store == nil {
+				kept++
+				continue
+			}
+			removed++
+			val := canon(store.Args[0])
+			switch {
+			case !term || notTerm:
+				bad = "the trailing return is removed on a path where the preceding statements were not found terminating: " + pathSummary(o2)
+			case !isNormal:
+				bad = "a trailing return other than `return Normal()` is removed: " + pathSummary(o2)
+			case !strings.HasPrefix(val, "slice(") || !strings.Contains(val, "-1"):
+				bad = "the statement list is not shortened by exactly its last element: " + val
+			}
+		}
+	}
+	if removed == 0 {
+		c.Notes = append(c.Notes, "rmRedundantReturn: no removing path seen (clean-up of redundant returns absent)")
+		return
+	}
+	c.check(bad == "", "RW.BRANCHCTX.RMRET", "redundant `return Normal()` removal", pos,
+		fmt.Sprintf("%d removing / %d keeping paths: only a trailing `return Normal()` is dropped, exactly one statement, and only when the statements before it are terminating", removed, kept), bad)
 }
 
 // ------------------------------------------------------------------ RW.SIG
